@@ -140,6 +140,23 @@ def run(ctx, rep):
             else:
                 rep.violated(k2, "%s given by %s is validated (numeric, in range) before use" % (pname, origin), construct=where,
                              why="exit(65) on parse failure: %s; exit(65) on the documented range: %s" % (got_parse, got_range))
+        # Q3 the text recorded is a lossless rendering of the value (else the saved file re-evaluates differently)
+        precs = []
+        for t in tm.subterms(comps_arg):
+            if t.op == "fmtargs" and any(a.op == "fmtarg" and a.a[2] is val for a in t.a[2:]):
+                for seg in fmtdoc.expand(t, T):
+                    if seg[0] == "hole" and seg[1].value is val:
+                        precs.append(seg[1].precision)
+        kp = "C19/Q3/%s/lossless" % pname
+        if not precs:
+            rep.violated(kp, "the effective %s is recorded as text in the metadata" % pname, construct=where,
+                         why="no format template writing the value into the components was found")
+        elif all(p is None for p in precs):
+            rep.discharged(kp, "metadata %s is written with the shortest round-trip rendering of the value (no precision cut)" % meta)
+        else:
+            rep.violated(kp, "the %s recorded in the saved components re-reads to the value that was used" % pname, construct=where,
+                         why="written with precision .%s: values the validation admits (e.g. %s) are altered in the saved file"
+                             % ([p for p in precs if p is not None][0], {"k_exp": "0.25"}.get(pname, "100.456")))
         # Q3 same value recorded in the emitted components
         k3 = "C19/Q3/%s" % pname
         if mentions(comps_arg, lambda x: x is val) and has_str(comps_arg, meta):
